@@ -541,6 +541,12 @@ class Ops:
             if oa == a or oa == b:
                 if ge:
                     st.store.assume_eq0(ca.sub(a).sub(b))
+                    # make what is known about c explicit in terms of a + b (joins rewrite single constraints only)
+                    csym = sg[0]
+                    ab = a.add(b)
+                    for e in list(st.store.rel):
+                        if csym in e.t and len(e.t) <= 3:
+                            st.store.assume_ge0(e.subst({csym: ab}), propagate=False)
                 else:
                     # strictly below an operand: wrapped exactly once
                     if (pred in ('ult', 'ugt')):
